@@ -3,7 +3,7 @@ CONSTANTS
  Confs <- AliasConfs
  MaxCloses = 2
  MaxOps = 0
- NormKeys = FALSE
+ KeyMode = "literal"
  Eager = FALSE
 SPECIFICATION Spec
 INVARIANTS TypeOK LocksNonNeg LocksExact MarkIsReach
